@@ -240,6 +240,21 @@ PROPS = {
              "duration_trunc(d) = floor to the greatest multiple of d (i128 on the epoch count), duration_trunc(k months, k | 12) = first "
              "instant of the month / quarter / half-year / year, NaT operands. distinct = (law, unit, sign / parameter class)",
     ),
+    "C18": dict(
+        bin="c18",
+        quick=NATIVE_QR, thorough=NATIVE_T,
+        floors={"class.corpus": 30, "class.corpus_insert": 500, "class.duration_grammar": 1000, "class.duration_mutated": 1000,
+                "class.datetime_grammar": 1000, "class.datetime_mutated": 1000, "class.random_unicode": 1000, "total.ok_results": 500,
+                "total.err_results": 5000, "wellformed.ok": 2000, "roundtrip.default_ok": 500, "roundtrip.listed_ok": 2000},
+        technique="runtime monitoring: grammar-based + mutational workload with a no-panic monitor and an i128 / chrono reference model",
+        rule="totality: a corpus of tricky strings with every single-character insertion (incl. multi-byte) / deletion, grammar-generated "
+             "duration-like strings (sign runs, 1..25 digits, valid / unknown / multi-byte units, whitespace), datetime-like strings (all "
+             "listed layouts, out-of-range fields, years 0..300000), mutations of both, random unicode; each string goes through 8 parser "
+             "entry points inside catch_unwind - any panic is a violation. Well-formed durations (1-6 optionally signed terms over the ten "
+             "units) must equal the i128 sum of their terms (months and fixed part separately; out-of-range totals may be Err). Round trip: "
+             "parse(strftime(t)) = t for the default format (all units, incl. the ends of the ns range) and the ten listed formats at "
+             "their resolution. distinct = (generator class, length, hash bucket) / (term count, signs) / (unit, epoch quarter-century)",
+    ),
 }
 
 for _k in list(PROPS):
